@@ -563,8 +563,13 @@ func (e *Env) evalIndex(n *ast.IndexExpr) SV {
 	switch u := base.ty.Underlying().(type) {
 	case *types.Slice:
 		idx := e.eval(n.Index, types.Typ[types.Int])
-		if base.content != nil {
-			return scalarSV(u.Elem(), Select(base.content, BvBin("bvadd", base.l[1], toI64(idx))))
+		if base.contents != nil {
+			at := BvBin("bvadd", base.l[1], toI64(idx))
+			out := make([]*Term, len(base.contents))
+			for k, c := range base.contents {
+				out[k] = Select(c, at)
+			}
+			return SV{ty: u.Elem(), l: out}
 		}
 		return e.st.load(e.x, sliceElemAddr(base, toI64(idx)))
 	case *types.Array:
@@ -607,7 +612,7 @@ func (e *Env) evalSlice(n *ast.SliceExpr) SV {
 	if n.High != nil {
 		hi = toI64(e.eval(n.High, types.Typ[types.Int]))
 	}
-	return SV{ty: base.ty, l: []*Term{base.l[0], BvBin("bvadd", base.l[1], lo), BvBin("bvsub", hi, lo), BvBin("bvsub", base.l[3], lo)}, p: base.p, content: base.content}
+	return SV{ty: base.ty, l: []*Term{base.l[0], BvBin("bvadd", base.l[1], lo), BvBin("bvsub", hi, lo), BvBin("bvsub", base.l[3], lo)}, p: base.p, contents: base.contents}
 }
 
 func (e *Env) evalBinary(n *ast.BinaryExpr, hint types.Type) SV {
@@ -976,12 +981,12 @@ func (e *Env) evalCall(n *ast.CallExpr, hint types.Type) SV {
 			}
 			v := e.eval(n.Args[ai], pt)
 			ai++
-			if es := seqElemSort(pt); es != nil {
+			if es := seqElemSorts(pt); es != nil {
 				if _, ok := v.ty.Underlying().(*types.Slice); !ok || len(v.l) != 4 {
 					efail("argument %d of %s must be a slice", i, name)
 				}
-				c := v.content
-				if c == nil {
+				cs := v.contents
+				if cs == nil {
 					st := e.st
 					if ce, ok := n.Args[ai-1].(*ast.CallExpr); ok {
 						if id, ok := ce.Fun.(*ast.Ident); ok && id.Name == "old" && e.oldSt != nil {
@@ -989,12 +994,15 @@ func (e *Env) evalCall(n *ast.CallExpr, hint types.Type) SV {
 						}
 					}
 					li := resolveLoc(sliceElemAddr(v, mkBV(0, 64)))
-					if !li.backing || len(li.idxs) != 1 || li.hi-li.lo != 1 {
+					if !li.backing || len(li.idxs) != 1 || li.hi-li.lo != len(es) {
 						efail("argument %d of %s: slice must have a plain backing array", i, name)
 					}
-					c = Select(st.region(li.key(li.lo), li.regionSort(li.lo)), v.l[0])
+					for k := li.lo; k < li.hi; k++ {
+						cs = append(cs, Select(st.region(li.key(k), li.regionSort(k)), v.l[0]))
+					}
 				}
-				args = append(args, c, v.l[1], v.l[2])
+				args = append(args, cs...)
+				args = append(args, v.l[1], v.l[2])
 				continue
 			}
 			if len(v.l) != len(leavesOf(pt)) {
@@ -1032,15 +1040,21 @@ func (x *Exec) declSpec(sf *SpecFunc) *UFDecl {
 		ty := env.resolveType(f.Type)
 		for _, nm := range f.Names {
 			sf.ptypes = append(sf.ptypes, ty)
-			if es := seqElemSort(ty); es != nil {
-				// slice of scalars: passed by contents (array, offset, length)
+			if es := seqElemSorts(ty); es != nil {
+				// slice passed by contents (one array per element leaf, offset, length)
 				nmS := fmt.Sprintf("%s!%s", sf.name, nm.Name)
-				c := mkBound(nmS+".content", ArrS(I64, es))
+				var cs []*Term
+				for k, srt := range es {
+					c := mkBound(fmt.Sprintf("%s.content%d", nmS, k), ArrS(I64, srt))
+					cs = append(cs, c)
+					sorts = append(sorts, c.sort)
+					prm = append(prm, c)
+				}
 				o := mkBound(nmS+".off", I64)
 				ln := mkBound(nmS+".len", I64)
-				sorts = append(sorts, c.sort, I64, I64)
-				prm = append(prm, c, o, ln)
-				env.vars[nm.Name] = SV{ty: ty, l: []*Term{mkBV(0, 32), o, ln, ln}, content: c}
+				sorts = append(sorts, I64, I64)
+				prm = append(prm, o, ln)
+				env.vars[nm.Name] = SV{ty: ty, l: []*Term{mkBV(0, 32), o, ln, ln}, contents: cs}
 				continue
 			}
 			ls := leavesOf(ty)
@@ -1105,11 +1119,22 @@ func (e *Env) ghostOf(x ast.Expr) *ghostInfo {
 	return nil
 }
 
-// seqElemSort returns the element sort if ty is a slice of single-leaf scalars.
-func seqElemSort(ty types.Type) *Sort {
+// seqElemSorts returns the leaf sorts of the element type if ty is a slice whose elements
+// consist of scalar leaves only (no nested arrays).
+func seqElemSorts(ty types.Type) []*Sort {
 	sl, ok := ty.Underlying().(*types.Slice)
 	if !ok {
 		return nil
 	}
-	return scalarSort(sl.Elem())
+	var out []*Sort
+	for _, l := range leavesOf(sl.Elem()) {
+		if l.sort.idx != nil {
+			return nil
+		}
+		out = append(out, l.sort)
+	}
+	if len(out) == 0 {
+		return nil
+	}
+	return out
 }
